@@ -6,6 +6,7 @@ import Driver.Util
 
 `C13.run <mode> <dimAware> <ps> <outsPath> <params> <value> <fs>`
 * mode     `p` = one parameter through `moveOut` (value = its JSON value),
+           `o2` = `processStructOuts` twice on the same record (interrupted post-process + restart),
            `o` = `processStructOuts` (value = the `_outs` object),
            `a`/`m` = `postProcess` of a top-level call mapped over an array / a typed map
 * dimAware `g` = the regenerated fact, `t`/`f` = forced
@@ -163,6 +164,9 @@ def handle (op : String) (args : List String) : Option String :=
     let r ← (match mode, params, v with
       | "p", [(id, on, ty)], v => some (moveOut da ps ty id on v outs fs)
       | "o", params, v => some (processStructOuts da ps params v outs fs)
+      | "o2", params, v =>
+        -- post-processing interrupted before `_outs` was rewritten, then run again on the same record
+        some (processStructOuts da ps params v outs (processStructOuts da ps params v outs fs).2)
       | "a", params, .arr xs =>
         let r := postArray da ps params outs 0 xs fs
         some (J.arr r.1, r.2)
